@@ -24,12 +24,13 @@ RULE = ("generated descriptions (and every layer of examples/somersault.pdx) x b
         "and is a truncation or at least as long as the constant prefix; distinct = digest of (description, bytes)")
 ASSUMPTIONS = [
     "non-termination is approximated by a 10 s wall-clock guard per byte string (normal decode time << 1 ms), confirmed with 30 s before it is reported",
-    "truncation clause only for descriptions without dynamic-length objects; 'value-carrying' = bits claimed by a parameter in the reference's used mask",
+    "truncation clause only for descriptions without objects that the end of the PDU may terminate (MIN-MAX-LENGTH values, end-of-pdu / end-marker fields); 'value-carrying' = bits claimed by a parameter in the reference's used mask",
 ]
-MUST_HIT = ["truncation-inside-field-item", "layer-case", "prefix", "mutation", "short", "random", "overlong", "entry:obj", "entry:layer", "entry:service",
+MUST_HIT = ["truncation-clause:announced-extent", "truncation-inside-field-item", "layer-case", "prefix", "mutation", "short", "random", "overlong", "entry:obj", "entry:layer", "entry:service",
             "entry:decode_response", "regime:error", "regime:default", "outcome:DecodeError", "outcome:returned",
             "truncation-clause", "somersault"]
 DYNAMIC = {"dct:minmax", "dct:leading", "dct:paramlen", "dlfield", "eopf", "mux", "emfield", "table"}
+TRUNC_AMBIGUOUS = {"dct:minmax", "eopf", "emfield"}
 ALPHABET = [0x00, 0x01, 0x7F, 0x80, 0xFF]
 
 
@@ -135,7 +136,12 @@ def eval_case(case, res: core.ShardResult | None = None, kf=None, budget: int = 
             except Exception:
                 return []
     lv = None
-    if ref is not None and not (feats & DYNAMIC):
+    # objects whose extent is announced *in front of* their content (switch key, table key, item count, leading
+    # length, length key) keep their layout in every prefix that still contains the announcement, and a prefix
+    # that does not contain it ends before a described parameter anyway; only objects that may be ended by the
+    # end of the PDU itself (MIN-MAX-LENGTH values, end-of-pdu and end-marker fields) make a prefix ambiguous
+    if ref is not None and not (feats & TRUNC_AMBIGUOUS) and "last-listed-not-last" not in feats \
+            and "mux-case-without-structure" not in feats:
         # (a RESERVED parameter carries no value but is a described parameter: the PDU must reach its end)
         idx = [i for i, u in enumerate(ref.used) if u] + list(getattr(ref, "reserved", []))
         lv = (max(idx) + 1) if idx else None
@@ -164,9 +170,13 @@ def eval_case(case, res: core.ShardResult | None = None, kf=None, budget: int = 
     for kind, data in strings:
         for regime in ("default", "error"):
             cls = {kind, "regime:" + regime}
-            if lv is not None and len(data) < lv:
+            if lv is not None and len(data) < lv and (kind == "prefix" or not (feats & DYNAMIC)):
                 cls.add("truncation-clause")
+                if feats & DYNAMIC:
+                    cls.add("truncation-clause:announced-extent")
             lv2 = lv
+            if lv is not None and (feats & DYNAMIC) and kind != "prefix":
+                lv2 = None      # other strings announce other extents; only prefixes of the valid PDU keep its layout
             if eopf_tail and kind == "prefix" and len(data) > eopf_tail[0] and (len(data) - eopf_tail[0]) % eopf_tail[1]:
                 # ... unless only padding of the item (BYTE-SIZE, gaps) is missing
                 item_end = eopf_tail[0] + ((len(data) - eopf_tail[0]) // eopf_tail[1] + 1) * eopf_tail[1]
